@@ -1,3 +1,4 @@
+import Sparrow.Proofs.LegKernelEquiv
 import Sparrow.Proofs.Relabel
 import Sparrow.Proofs.PipelineTranslation
 import Sparrow.Proofs.PointPatchLemmas
@@ -154,3 +155,17 @@ theorem monoCurveCode_relabel (sc : ExScene ℝ) (hwf : sc.WF) (σ τ : Nat → 
   Sparrow.monoCurveCode_relabel sc hwf σ τ h K g w binR t
 
 end Sparrow.Props.C17.Relabel
+
+namespace Sparrow.Props.C17.SourceLeg
+open Sparrow Sparrow.Generated.LegKernels
+
+/-- **placement** (C17): moving source and room by one vector leaves the distances the translated source-leg kernel returns
+    unchanged, patch by patch (whatever the point factor and the visibility vector) -/
+theorem source2patchDistance_translation (pt pt' : (Nat → ℝ) → (Nat → Nat → ℝ) → ℝ) (P B : Nat) (src : Nat → ℝ)
+    (pc : Nat → Nat → ℝ) (pp pp' : Nat → Nat → Nat → ℝ) (vis : Nat → Bool) (att : Option (Nat → ℝ)) (t : Nat → ℝ)
+    (s0 s1 s2 s3 s4 : Nat) (j : Nat) (hj : j < P) :
+    (source2patchEnergyUniversal pt' 3 (fun q => src q + t q) P 3 (fun k q => pc k q + t q) s0 s1 s2 pp' s3 vis s4 att B).2 j =
+      (source2patchEnergyUniversal pt 3 src P 3 pc s0 s1 s2 pp s3 vis s4 att B).2 j :=
+  Sparrow.source2patchDistance_translation pt pt' P B src pc pp pp' vis att t s0 s1 s2 s3 s4 j hj
+
+end Sparrow.Props.C17.SourceLeg
